@@ -130,7 +130,7 @@ pub fn run(cx: &mut Ctx) {
             }
         }
     });
-    let n = cx.a.n(400_000, 3_000_000);
+    let n = cx.a.n(1_000_000, 4_000_000);
     for _ in 0..n {
         cx.case("random", |c| {
             super::poison::maybe(c, 9);
